@@ -49,7 +49,7 @@ func (x *Exec) chanClose(st *State, fr *Frame, site ssa.Instruction, ch *Val, kn
 	engineErr("channels not supported yet")
 }
 
-func (x *Exec) mapInit(st *State, t types.Type, ref Tm) { engineErr("maps not supported yet") }
+func (x *Exec) mapInit(st *State, t types.Type, ref Tm) {}
 
 func (x *Exec) lookup(st *State, fr *Frame, in *ssa.Lookup) bool {
 	engineErr("map lookup not supported yet")
